@@ -131,6 +131,15 @@ def generic(prop):
         out = check_traces(ctx, prop, cases, traces, meta)
         nontrivial = sum(1 for i in out.accepted)
         ctx.sample({"script": meta[0]["script"][:1500], "events": traces[0][1:12]})
+        if prop in ("C02", "C11"):
+            # the decimal-period clause: the same semantics with the quantum mapped to 0.1 s and 0.05 s
+            from fractions import Fraction
+            for q in (Fraction(1, 10), Fraction(1, 20)):
+                dcases = [(p, e, t + 6) for (p, e, t) in make_cases(prop, ctx.seed + q.denominator, ctx.pick(60, 600))]
+                dtraces, dmeta = execute(dcases, quantum=q)
+                dout = check_traces(ctx, prop, dcases, dtraces, dmeta, " (decimal quantum %s s)" % float(q))
+                nontrivial += len(dout.accepted)
+                n += len(dcases)
         model_check(ctx, prop, cases, ctx.pick(3, 4), ctx.pick(6, 20))
         if prop == "C03":
             model_check(ctx, prop, cases, 2, ctx.pick(3, 8), liveness=True)
